@@ -494,6 +494,29 @@ def cStructText (env : Env) (n : String) (fields : List (String × TyName)) : Op
     "typedef struct " ++ n ++ " { " ++ " ".intercalate fs ++ " } " ++ n ++ "; typedef struct " ++ n ++ "_option {union { "
       ++ n ++ " ok; }; bool is_ok; } " ++ n ++ "_option;"
 
+/-! ### callbacks: the function pointer behind `run_callback` -/
+
+/-- what the macro transmutes `run_callback` to: `unsafe extern "C" fn(*const c_void, A…) -> R` with
+    `A = param_ty(in_ty)` and `R = out_type.to_syn()` -/
+def cbRustSig (ps : List TyName) (r : TyName) : List RTy × RTy := (ps.map paramTy, toSyn r)
+
+/-- what the C backend declares in the wrapper struct: `R (*run_callback)(const void*, A…)` -/
+def cbCSig (env : Env) (ps : List TyName) (r : TyName) : Option (List CTy × CTy) :=
+  match optMapM (cTy env) ps, (if isUnit r then some CTy.void else cTy env r) with
+  | some a, some b => some (a, b)
+  | _, _ => none
+
+def cbRustText (mutable : Bool) (ps : List TyName) (r : TyName) : String :=
+  "unsafeextern\"C\"fn(*" ++ (if mutable then "mut" else "const") ++ "c_void" ++ "".intercalate ((cbRustSig ps r).1.map fun t => "," ++ t.render)
+    ++ ")->" ++ (cbRustSig ps r).2.render
+
+def cbCText (env : Env) (abi param : String) (ps : List TyName) (r : TyName) : Option String :=
+  (cbCSig env ps r).map fun sig =>
+    let params := ", ".intercalate (sig.1.map CTy.name)
+    "typedef struct DiplomatCallback_" ++ abi ++ "_" ++ param ++ " { const void* data; " ++ sig.2.name
+      ++ " (*run_callback)(const void*" ++ (if params.isEmpty then "" else ", " ++ params ++ " ") ++ "); void (*destructor)(const void*); } DiplomatCallback_"
+      ++ abi ++ "_" ++ param ++ ";"
+
 /-! ### driver -/
 
 structure ADecl where
@@ -552,9 +575,16 @@ def declFrags (env : Env) (pfx : String) (d : ADecl) : List String :=
      | some t => ["c/" ++ d.name ++ ".d.h => " ++ t]
      | none => ["c/" ++ d.name ++ ".d.h => <unrenderable>"]
    | _ => [])
+  -- impl.h.jinja prints every callback wrapper struct of the type first, then the prototypes
+  ++ (d.methods.flatMap fun m => m.params.flatMap fun p => match p.2 with
+      | .fn ps r => ["c/" ++ d.name ++ ".h => " ++ (cbCText env (abiName pfx d.name m.name) p.1 ps r).getD "<unrenderable>"]
+      | _ => [])
   ++ d.methods.flatMap fun m =>
     ["macro => " ++ macroSigText pfx d.name m,
      "c/" ++ d.name ++ ".h => " ++ (cProtoText env pfx d.name m).getD "<unrenderable>"]
+    ++ m.params.flatMap fun p => match p.2 with
+      | .fn ps r => ["macrobody " ++ abiName pfx d.name m.name ++ " => " ++ cbRustText false ps r]
+      | _ => []
 
 /-- does the model assign the same wire meaning to both descriptions of the method -/
 def methodAgrees (env : Env) (pfx owner : String) (m : AMethod) : Bool :=
